@@ -22,6 +22,8 @@ pub struct Scn17 {
     pub files: Vec<FileSpec>,
     pub params: Vec<String>,
     pub overlap: bool,
+    /// number of data files (1 or 2)
+    pub ndata: usize,
 }
 
 #[derive(Clone, Debug)]
@@ -31,9 +33,11 @@ pub struct Dlv17 {
     pub dir_mode: String,
     pub dir_seed: u64,
     pub mtimes: BTreeMap<String, i64>,
+    /// data arrives on stdin (first data file only)
+    pub stdin: Option<String>,
 }
 
-fn step(argv: &[String], root: &str) -> Step {
+fn step(argv: &[String], stdin: &Option<String>, root: &str) -> Step {
     let sub = |s: &String| -> String {
         if let Some(rest) = s.strip_prefix("@/") {
             format!("{}{}", root, rest)
@@ -41,32 +45,35 @@ fn step(argv: &[String], root: &str) -> Step {
             s.clone()
         }
     };
-    Step { kind: "cli".into(), argv: argv.iter().map(sub).collect(), stdin: None, out_path: None, rc: None, label: String::new() }
+    Step { kind: "cli".into(), argv: argv.iter().map(sub).collect(), stdin: stdin.as_ref().map(sub), out_path: None, rc: None, label: String::new() }
 }
 
 fn sv(xs: &[&str]) -> Vec<String> {
     xs.iter().map(|s| s.to_string()).collect()
 }
 
-/// (status, compliant, not_applicable, not_compliant rule names) of the single report
+/// per report, in output order: (status, compliant, not_applicable, not_compliant rule names)
 fn verdicts(stdout: &[u8], structured: bool) -> Option<Value> {
-    let v: Value = if structured {
-        serde_json::from_slice::<Value>(stdout).ok()?.as_array()?.first()?.clone()
-    } else {
-        parse_json_stream(stdout)?.first()?.clone()
-    };
-    let names = |k: &str| -> Vec<String> {
-        let mut n: Vec<String> = v.get(k).and_then(|a| a.as_array()).map(|a| a.iter().filter_map(|s| s.as_str().map(String::from)).collect()).unwrap_or_default();
-        n.sort();
-        n
-    };
-    let mut nc: Vec<String> = v
-        .get("not_compliant")
-        .and_then(|a| a.as_array())
-        .map(|a| a.iter().filter_map(|e| e.get("Rule").and_then(|r| r.get("name")).and_then(|n| n.as_str()).map(String::from)).collect())
-        .unwrap_or_default();
-    nc.sort();
-    Some(json!({"status": v.get("status"), "compliant": names("compliant"), "not_applicable": names("not_applicable"), "not_compliant": nc}))
+    let reports: Vec<Value> = if structured { serde_json::from_slice::<Value>(stdout).ok()?.as_array()?.clone() } else { parse_json_stream(stdout)? };
+    if reports.is_empty() {
+        return None;
+    }
+    let mut out = Vec::new();
+    for v in reports {
+        let names = |k: &str| -> Vec<String> {
+            let mut n: Vec<String> = v.get(k).and_then(|a| a.as_array()).map(|a| a.iter().filter_map(|s| s.as_str().map(String::from)).collect()).unwrap_or_default();
+            n.sort();
+            n
+        };
+        let mut nc: Vec<String> = v
+            .get("not_compliant")
+            .and_then(|a| a.as_array())
+            .map(|a| a.iter().filter_map(|e| e.get("Rule").and_then(|r| r.get("name")).and_then(|n| n.as_str()).map(String::from)).collect())
+            .unwrap_or_default();
+        nc.sort();
+        out.push(json!({"status": v.get("status"), "compliant": names("compliant"), "not_applicable": names("not_applicable"), "not_compliant": nc}));
+    }
+    Some(Value::Array(out))
 }
 
 impl C17 {
@@ -133,8 +140,23 @@ impl C17 {
         let mut files = vec![
             FileSpec { rel: "rules/r0.guard".into(), bytes: prog.print().into_bytes(), mtime_ns: 0 },
             FileSpec { rel: "data/d0.json".into(), bytes: doc::render(&parts[0], DocFmt::JsonPretty).into_bytes(), mtime_ns: 0 },
-            FileSpec { rel: "merged/m.json".into(), bytes: doc::render(&J::Map(merged), DocFmt::JsonPretty).into_bytes(), mtime_ns: 0 },
+            FileSpec { rel: "merged/m0.json".into(), bytes: doc::render(&J::Map(merged.clone()), DocFmt::JsonPretty).into_bytes(), mtime_ns: 0 },
         ];
+        // a second data file with the same keys and other values: the parameters must be
+        // merged into EVERY data file
+        let ndata = if r.chance(1, 2) { 2 } else { 1 };
+        if ndata == 2 {
+            let d1: Vec<(String, J)> = match &parts[0] {
+                J::Map(kv) => kv.iter().map(|(k, v)| (k.clone(), doc::mutate(&mut r, v))).collect(),
+                _ => vec![],
+            };
+            let nparam_keys = merged.len() - match &parts[0] { J::Map(kv) => kv.len(), _ => 0 };
+            let mut m1: Vec<(String, J)> = merged[..nparam_keys].to_vec();
+            m1.extend(d1.iter().cloned());
+            files.push(FileSpec { rel: "data/d1.json".into(), bytes: doc::render(&J::Map(d1), DocFmt::JsonPretty).into_bytes(), mtime_ns: 0 });
+            files.push(FileSpec { rel: "merged/m1.json".into(), bytes: doc::render(&J::Map(m1), DocFmt::JsonPretty).into_bytes(), mtime_ns: 0 });
+            rep.count("gen.two_data_files", 1);
+        }
         let mut params = Vec::new();
         let same_base = r.chance(1, 3);
         if same_base {
@@ -153,14 +175,14 @@ impl C17 {
         for (i, f) in files.iter_mut().enumerate() {
             f.mtime_ns = (1_650_000_000 + 17 * i as i64) * 1_000_000_000;
         }
-        (Scn17 { files, params, overlap }, prog.print())
+        (Scn17 { files, params, overlap, ndata }, prog.print())
     }
 
-    fn run(&self, w: &mut Work, argv: &[String], dir_mode: &str, dir_seed: u64, rep: &mut Report) -> (String, Vec<u8>) {
+    fn run(&self, w: &mut Work, argv: &[String], stdin: &Option<String>, dir_mode: &str, dir_seed: u64, rep: &mut Report) -> (String, Vec<u8>) {
         let mut req = w.req();
         req.sim.dir_mode = dir_mode.to_string();
         req.sim.dir_seed = dir_seed;
-        req.steps = vec![step(argv, &w.root)];
+        req.steps = vec![step(argv, stdin, &w.root)];
         let o = w.run(&req);
         rep.absorb_exec(&o);
         match o.steps.first() {
@@ -174,7 +196,18 @@ impl C17 {
         for _ in 0..k {
             let structured = r.chance(1, 2);
             let tail = if structured { sv(&["--structured", "-o", "json", "-S", "none"]) } else { sv(&["-o", "json", "-S", "none"]) };
-            let mut argv = sv(&["cfn-guard", "validate", "-r", "@/rules/r0.guard", "-d", "@/data/d0.json"]);
+            let stdin_mode = r.chance(1, 6);
+            let mut argv = sv(&["cfn-guard", "validate", "-r", "@/rules/r0.guard"]);
+            if !stdin_mode {
+                if scn.ndata == 2 && r.chance(1, 2) {
+                    argv.extend(sv(&["-d", "@/data"]));
+                } else {
+                    argv.extend(sv(&["-d", "@/data/d0.json"]));
+                    if scn.ndata == 2 {
+                        argv.extend(sv(&["-d", "@/data/d1.json"]));
+                    }
+                }
+            }
             let mut mtimes = BTreeMap::new();
             let kind;
             let mut dir_mode = "asc".to_string();
@@ -213,13 +246,14 @@ impl C17 {
                 kind = format!("dir{}-{}", flag, if structured { "structured" } else { "plain" });
             }
             argv.extend(tail);
-            out.push(Dlv17 { kind, argv, dir_mode, dir_seed: r.next(), mtimes });
+            let kind = if stdin_mode { format!("stdin-{}", kind) } else { kind };
+            out.push(Dlv17 { kind, argv, dir_mode, dir_seed: r.next(), mtimes, stdin: if stdin_mode { Some("@/data/d0.json".into()) } else { None } });
         }
         out
     }
 
     fn reference(&self, w: &mut Work, rep: &mut Report) -> (String, Option<Value>) {
-        let (c, out) = self.run(w, &sv(&["cfn-guard", "validate", "-r", "@/rules/r0.guard", "-d", "@/merged/m.json", "--structured", "-o", "json", "-S", "none"]), "asc", 1, rep);
+        let (c, out) = self.run(w, &sv(&["cfn-guard", "validate", "-r", "@/rules/r0.guard", "-d", "@/merged", "--structured", "-o", "json", "-S", "none"]), &None, "asc", 1, rep);
         let v = verdicts(&out, true);
         (c, v)
     }
@@ -232,7 +266,7 @@ impl C17 {
             }
         }
         w.materialise(&files);
-        let (c, out) = self.run(w, &d.argv, &d.dir_mode, d.dir_seed, rep);
+        let (c, out) = self.run(w, &d.argv, &d.stdin, &d.dir_mode, d.dir_seed, rep);
         if c.starts_with("died") || c.starts_with("panic") {
             rep.count("skipped.crash_is_c08", 1);
             return None;
@@ -253,11 +287,21 @@ impl C17 {
             }
             return None;
         }
+        let structured = d.kind.ends_with("structured");
+        let got = verdicts(&out, structured);
+        // data on stdin is the first data file only
+        let (refc, refv): (String, Option<Value>) = if d.stdin.is_some() {
+            let first = refv.as_ref().and_then(|v| v.as_array()).and_then(|a| a.first().cloned());
+            let fails = first.as_ref().map(|f| f.get("status").and_then(|s| s.as_str()) == Some("FAIL")).unwrap_or(false);
+            (if fails { "exit:19".into() } else { "exit:0".into() }, first.map(|f| Value::Array(vec![f])))
+        } else {
+            (refc.to_string(), refv.clone())
+        };
+        let refc = refc.as_str();
+        let refv = &refv;
         if c != refc {
             return Some((format!("{}/exit", d.kind), format!("pre-merged document exits {refc}, `{}` exits {c}", d.argv.join(" ").replace("@/", ""))));
         }
-        let structured = d.kind.ends_with("structured");
-        let got = verdicts(&out, structured);
         if got.is_none() || refv.is_none() {
             return Some((format!("{}/unparsable", d.kind), "output is not the expected JSON".into()));
         }
@@ -274,8 +318,8 @@ impl C17 {
     }
 
     fn to_json(&self, scn: &Scn17, d: &Dlv17) -> Value {
-        json!({"files": files_to_json(&scn.files), "params": scn.params, "overlap": scn.overlap,
-               "delivery": {"kind": d.kind, "argv": d.argv, "dir_mode": d.dir_mode, "dir_seed": d.dir_seed, "mtimes": d.mtimes}})
+        json!({"files": files_to_json(&scn.files), "params": scn.params, "overlap": scn.overlap, "ndata": scn.ndata,
+               "delivery": {"kind": d.kind, "argv": d.argv, "dir_mode": d.dir_mode, "dir_seed": d.dir_seed, "mtimes": d.mtimes, "stdin": d.stdin}})
     }
 }
 
@@ -365,6 +409,7 @@ impl Check for C17 {
             files: files_from_json(v.get("files").unwrap_or(&Value::Null)),
             params: serde_json::from_value(v.get("params").cloned().unwrap_or(Value::Null)).unwrap_or_default(),
             overlap: v.get("overlap").and_then(|b| b.as_bool()).unwrap_or(false),
+            ndata: v.get("ndata").and_then(|b| b.as_u64()).unwrap_or(1) as usize,
         };
         let dv = match v.get("delivery") {
             Some(d) => d,
@@ -376,6 +421,7 @@ impl Check for C17 {
             dir_mode: dv.get("dir_mode").and_then(|s| s.as_str()).unwrap_or("asc").to_string(),
             dir_seed: dv.get("dir_seed").and_then(|s| s.as_u64()).unwrap_or(1),
             mtimes: serde_json::from_value(dv.get("mtimes").cloned().unwrap_or(Value::Null)).unwrap_or_default(),
+            stdin: dv.get("stdin").and_then(|s| s.as_str()).map(String::from),
         };
         let mut rep = Report::default();
         self.check_one(w, &scn, &d, &mut rep).into_iter().map(|(sig, what)| Violation { signature: sig, what, replay: Value::Null, shrink_execs: 0, minimised: false }).collect()
